@@ -1,7 +1,7 @@
 (* C19 -- property theorems only.  Proofs live in C19/Proofs*.v. *)
 From Coq Require Import NArith List.
 From DV Require Import Base.Outcome Base.Bytes Base.Names Base.PName C19.Gen C19.Model
-  C19.ModelCmp C19.ProofsDec C19.ProofsOld C19.ProofsNew C19.ProofsAgree C19.ProofsCmp C19.ProofsCmpSound C19.ProofsCmpInv C19.ProofsRev C19.ModelEdns C19.ProofsItems C19.ProofsEdns C01.Model C05.OptModel.
+  C19.ModelCmp C19.ProofsDec C19.ProofsOld C19.ProofsNew C19.ProofsAgree C19.ProofsCmp C19.ProofsCmpSound C19.ProofsCmpInv C19.ProofsRev C19.ModelEdns C19.ModelMsg C19.ProofsItems C19.ProofsEdns C19.ProofsCmpRev C19.ProofsCmpRegions C19.ProofsMsg C01.Model C05.OptModel.
 Import ListNotations.
 Local Open Scope N_scope.
 
@@ -205,3 +205,51 @@ Print Assumptions C19_edns_old_view.
 Theorem C19_edns_framing_agrees : forall b, nopt_ok b = is_ok (opt_parse b).
 Proof. exact edns_framing_agrees. Qed.
 Print Assumptions C19_edns_framing_agrees.
+
+(* ---- round 3 ---- *)
+(* the exact-parse entry point of RevNameBuf runs in lockstep with NameBuf's;
+   all four name readers decode the same paths *)
+Theorem C19_rev_parse_lockstep : forall c start, top_rel_p (new_parse c start) (rev_parse c start).
+Proof. exact rev_parse_lockstep. Qed.
+Print Assumptions C19_rev_parse_lockstep.
+
+Theorem C19_four_readers : forall c start ls,
+  (new_parse c start = Ok (wire_abs ls) <-> new_split c start = Ok (wire_abs ls, len c)) /\
+  (rev_parse c start = Ok (rev_wire ls) <-> new_split c start = Ok (wire_abs ls, len c)) /\
+  (rev_split c start = Ok (rev_wire ls, len c) <-> new_split c start = Ok (wire_abs ls, len c)).
+Proof. exact four_readers. Qed.
+Print Assumptions C19_four_readers.
+
+(* new_compressor_sound for messages mixing Name::build_in_message,
+   RevName::build_in_message and any other octets, any number, with eviction *)
+Theorem C19_new_compressor_sound_mixed : forall h, length h = 12%nat -> forall l st c c',
+  Inv st c -> wf_bytes c -> Forall mitem_ok l ->
+  build_mixed st c l = Ok c' ->
+  (exists tail, c' = c ++ tail) /\ wf_bytes c' /\ (wf_bytes c' -> mixed_read_back h c' (len c) l).
+Proof. exact new_compressor_sound_mixed. Qed.
+Print Assumptions C19_new_compressor_sound_mixed.
+
+(* octets outside the compressor's entries may be rewritten later (the RDATA
+   size prefix): the compressor reads the contents only inside entry extents *)
+Theorem C19_patch_invariant : forall st A X Y B w, length X = length Y ->
+  (forall i, nth i (cs_len st) 0 <> 0 ->
+     nth i (cs_pos st) 0 + nth i (cs_len st) 0 + 2 <= len A \/ len A + len X <= nth i (cs_pos st) 0) ->
+  compress_name st (A ++ X ++ B) w = compress_name st (A ++ Y ++ B) w.
+Proof. exact patch_invariant. Qed.
+Print Assumptions C19_patch_invariant.
+
+Theorem C19_reserved_after_extents : forall st c i, Inv st c -> nth i (cs_len st) 0 <> 0 -> ext_end st i <= len c.
+Proof. exact reserved_after_extents. Qed.
+Print Assumptions C19_reserved_after_extents.
+
+(* MessageParser enforces the header counts *)
+Theorem C19_mp_counts_enforced : forall m items off ok, mp_run m = Some (Ok (items, off, ok)) ->
+  let announced := (N.to_nat (u16_of m 4) + N.to_nat (u16_of m 6) + N.to_nat (u16_of m 8) + N.to_nat (u16_of m 10))%nat in
+  (ok = true <-> length items = announced) /\ (length items <= announced)%nat.
+Proof. exact mp_counts_enforced. Qed.
+Print Assumptions C19_mp_counts_enforced.
+
+Theorem C19_mp_item_new_to_old : forall (h c : bytes), length h = 12%nat -> wf_bytes c ->
+  forall sec off it off', mp_item c sec off = Ok (it, off') -> old_reads (h ++ c) (12 + off) it (12 + off').
+Proof. exact mp_item_new_to_old. Qed.
+Print Assumptions C19_mp_item_new_to_old.
